@@ -4,6 +4,8 @@ package govc
 // real pass (obligations), discharge.
 
 import (
+	"crypto/sha256"
+	"encoding/hex"
 	"fmt"
 	"go/types"
 	"os"
@@ -464,6 +466,16 @@ func (x *Exec) scriptForMode(o *Oblig, part int, forCVC5 bool, withModel bool, r
 	return c.Script(asserts, gv, forCVC5)
 }
 
+// shortTag keeps scratch file names short and unique: long obligation names are cut and given a hash of the
+// full name (two obligations that differ only after the cut must not share a script file).
+func shortTag(tag string) string {
+	if len(tag) <= 140 {
+		return tag
+	}
+	h := sha256.Sum256([]byte(tag))
+	return tag[:140] + "." + hex.EncodeToString(h[:4])
+}
+
 var nameSan = regexp.MustCompile(`[^A-Za-z0-9_.-]+`)
 
 func SolveUnits(units []*UnitResult, opts SolveOpts) {
@@ -507,9 +519,7 @@ func SolveUnits(units []*UnitResult, opts SolveOpts) {
 			for j := range ch {
 				o := j.o
 				tag := nameSan.ReplaceAllString(o.Name, "_")
-				if len(tag) > 150 {
-					tag = tag[:150]
-				}
+				tag = shortTag(tag)
 				if len(o.Parts) > 0 {
 					tag += fmt.Sprintf(".p%d", j.part)
 				}
@@ -563,9 +573,7 @@ func SolveUnits(units []*UnitResult, opts SolveOpts) {
 		for _, j := range retry {
 			o := j.o
 			tag := nameSan.ReplaceAllString(o.Name, "_")
-			if len(tag) > 150 {
-				tag = tag[:150]
-			}
+			tag = shortTag(tag)
 			if len(o.Parts) > 0 {
 				tag += fmt.Sprintf(".p%d", j.part)
 			}
@@ -617,9 +625,7 @@ func SolveUnits(units []*UnitResult, opts SolveOpts) {
 						pre := o.Pre
 						mkp := func(cvc5 bool) string { return u.Exec.scriptFor(pre, 0, cvc5, false) }
 						ptag := nameSan.ReplaceAllString(o.Name, "_")
-						if len(ptag) > 150 {
-							ptag = ptag[:150]
-						}
+						ptag = shortTag(ptag)
 						rp := Solve(mkp, 3, opts.Scratch, ptag+".before", "")
 						if rp.Status == "unsat" {
 							o.Solver += " (infeasible path: the state before the call is unreachable as well)"
